@@ -418,7 +418,9 @@ def _run_history(prep, ops, fail, count, after_step, pm):
                                 bad('C06:unregister-released-wrong-names', 'collector %d claims %s, freed %s, altered %s'
                                     % (cid, sorted(set(mine)), sorted(freed), kept_changed))
                         # it can be registered again (probe on a shallow clone sharing nothing mutable)
-                        if hasattr(reg, '_collector_to_names') and hasattr(reg, '_names_to_collectors'):
+                        # (a collector that meanwhile describes OTHER names is a different registration: no probe)
+                        if (hasattr(reg, '_collector_to_names') and hasattr(reg, '_names_to_collectors')
+                                and prep.described_now(cid) == prep.frozen.get(cid, prep.described_now(cid))):
                             clone = copy.copy(reg)
                             clone._collector_to_names = dict(reg._collector_to_names)
                             clone._names_to_collectors = dict(reg._names_to_collectors)
